@@ -33,8 +33,13 @@ impl<T: Shape> Ret for OptEl<T> {
     fn repr(&self) -> String { match &self.0 { Some(e) => { let mut o = vec![]; e.ids(&mut o); format!("some{}", fmt_ids(&o)) } None => "none".into() } }
 }
 
+thread_local! { pub static ARM: std::cell::Cell<Option<(bool, i64)>> = const { std::cell::Cell::new(None) }; }
+
 pub fn exec<R: Ret>(side: usize, f: impl FnOnce() -> R) -> String {
     set_side(side);
+    arm_clone_fuse(-1); arm_cmp_fuse(-1);
+    match ARM.with(|a| a.get()) { Some((true, k)) => arm_clone_fuse(k), Some((false, k)) => arm_cmp_fuse(k), None => {} }
+    let f = move || { let r = f(); arm_clone_fuse(-1); arm_cmp_fuse(-1); r };
     let r = catch_unwind(AssertUnwindSafe(f));
     let ev = take_events(side);
     match r {
@@ -359,8 +364,12 @@ macro_rules! interp {
             let mut regs: Vec<$V> = (0..NREG).map(|_| $V::new()).collect();
             let mut mirs: Vec<Vec<T>> = (0..NREG).map(|_| Vec::new()).collect();
             let mk = |side: usize, tag: usize| -> T { set_side(side); <T as Shape>::make(tag as u32) };
+            let mut fuse: Option<(&str, i64)> = None;
             for (n, line) in lines.iter().enumerate() {
                 let w: Vec<&str> = line.split_whitespace().collect();
+                // a fuse armed by the previous line applies to this operation, separately on each side
+                let armed = if w[0] != "clonefuse" && w[0] != "cmpfuse" { fuse.take() } else { None };
+                ARM.with(|a| a.set(armed.map(|(k, v)| (k == "clone", v))));
                 if LIVE.with(|l| l.get()) { emit(out, format!("# step {}", n)); }
                 let arg = |i: usize| -> usize { w[i].parse().expect("usize arg") };
                 // read-only observations do not reprint the registers (`regs=~` = unchanged)
@@ -726,7 +735,10 @@ macro_rules! interp {
                         (ri, rs) }
                     "refreplace" => { let r = reg(w[1]); let (a, b) = (mk(0, arg(3)), mk(1, arg(3)));
                         (exec(0, || El(regs[r].index_mut(arg(2)).replace(a))), exec(1, || { let i = arg(2); El(std::mem::replace(&mut mirs[r][i], b)) })) }
-                    "clonefuse" => { arm_clone_fuse(w[1].parse().unwrap()); (exec(0, || {}), exec(1, || {})) }
+                    // arm the user's Clone / Ord implementation to panic at its k-th call, on one side at a time:
+                    // the next operation runs with the fuse re-armed for each side
+                    "clonefuse" => { fuse = Some(("clone", w[1].parse().unwrap())); (exec(0, || {}), exec(1, || {})) }
+                    "cmpfuse" => { fuse = Some(("cmp", w[1].parse().unwrap())); (exec(0, || {}), exec(1, || {})) }
                     _ => interp!(@clone $cl, w, regs, mirs, mk, arg, T, $V),
                 };
                 if pure {
